@@ -1,23 +1,38 @@
-"""C17 — tie of DepState.required_increment_from to the model by the fail-closed translator (translate/py2gallina_c17.py):
-the method's current source text is translated to coq/C17/Gen_linspace.v on every run; coq/C17/GenEq.v (committed) proves
-the generated definition equal to the model's required_increment_from."""
+"""C17 — ties of qupulse/program/linspace.py to the model by the fail-closed translator (translate/py2gallina_c17.py).
+On every run the current source text is translated again:
+  DepState.required_increment_from                                         -> coq/C17/Gen_linspace.v      (GenEq.v)
+  the command dataclasses, LinSpaceVM.change_state / step,
+  _TranslationState.set_voltage / _set_indexed_voltage                      -> coq/C17/Gen_linspace_obj.v  (GenObjEq.v)
+The committed proofs GenEq.v / GenObjEq.v show the generated definitions equal to (a refinement of) the model; they stop
+compiling when the source changes its behaviour, and the translator refuses source text outside its subset."""
 import os
 import sys
 
 import vlib
 
 GEN_FILE = os.path.join(vlib.COQ, 'C17', 'Gen_linspace.v')
+GEN_OBJ_FILE = os.path.join(vlib.COQ, 'C17', 'Gen_linspace_obj.v')
 SOURCE = 'qupulse/program/linspace.py'
 
 
 def pregen(ctx):
     sys.path.insert(0, os.path.join(vlib.VERIF, 'translate'))
     import py2gallina_c17
+    out = []
     name = 'translate:%s::DepState.required_increment_from' % SOURCE
     try:
         txt = py2gallina_c17.translate_method(os.path.join(vlib.REPO, SOURCE), 'DepState', 'required_increment_from')
         txt = txt.replace(vlib.REPO, '/repo')
         vlib.write_if_changed(GEN_FILE, txt + '\n')
-        return [{'name': name, 'ok': True, 'detail': 'translated'}]
+        out.append({'name': name, 'ok': True, 'detail': 'translated'})
     except Exception as e:   # Unsupported, SyntaxError, ...
-        return [{'name': name, 'ok': False, 'detail': 'translator refused the current source: %s' % e}]
+        out.append({'name': name, 'ok': False, 'detail': 'translator refused the current source: %s' % e})
+    name = 'translate:%s::LinSpaceVM.step/change_state,_TranslationState.set_voltage/_set_indexed_voltage' % SOURCE
+    try:
+        txt = py2gallina_c17.translate_objects(os.path.join(vlib.REPO, SOURCE))
+        txt = txt.replace(vlib.REPO, '/repo')
+        vlib.write_if_changed(GEN_OBJ_FILE, txt + '\n')
+        out.append({'name': name, 'ok': True, 'detail': 'translated'})
+    except Exception as e:
+        out.append({'name': name, 'ok': False, 'detail': 'translator refused the current source: %s' % e})
+    return out
